@@ -330,6 +330,7 @@ func (vc *FuncVC) execCall(in ssa.Instruction, c *ssa.CallCommon, res ssa.Value)
 	for _, le := range entries {
 		vc.callPre[le.w.Label] = append(vc.callPre[le.w.Label], vc.cur)
 		vc.callGuard[le.w.Label] = append(vc.callGuard[le.w.Label], vc.g())
+		vc.callBlock[le.w.Label] = append(vc.callBlock[le.w.Label], vc.curBlock)
 	}
 	var result *Val
 	var sig *types.Signature
